@@ -136,7 +136,7 @@ Send(u, t, a, faulted) ==
           /\ lastTx' = lastTx + 1
           /\ usage' = IF LimitApplies(u, d) THEN [usage EXCEPT ![d] = NewUsage(d, a)] ELSE usage
           /\ accepted' = accepted \cup {lastTx + 1}
-          /\ sent' = Append(sent, [u |-> u, d |-> d, a |-> a, h |-> height, lim |-> LimitApplies(u, d)])
+          /\ sent' = Append(sent, [u |-> u, d |-> d, a |-> a, h |-> height, lim |-> LimitApplies(u, d), limit |-> limit[d].limit])
           /\ res' = "ok"
      ELSE /\ UNCHANGED <<bal, escrow, pool, lastTx, usage, accepted, sent>>
           /\ res' = "fail"
@@ -297,11 +297,15 @@ Confirm(v, nonce, est) ==
   /\ UNCHANGED <<bal, escrow, supply, community, pool, batches, lastTx, lastBatch, tax, limit, usage, height,
                  claims, estimates, archived, jailed, monvars>>
 
-\* anybody replays v's genuine signature over checkpoint <<nonce, est>> (genuine = issued) or over a forged one
+\* anybody replays v's signature over the checkpoint of batch `nonce` with estimate `est`: genuine if that
+\* checkpoint was issued, forged otherwise.  A subject whose batch never existed has forged content and can
+\* never coincide with a checkpoint issued later (its content differs), hence the -1 marker.
+CpOf(nonce, est) == IF nonce <= lastBatch THEN <<nonce, est>> ELSE <<nonce, -1>>
 Evidence(v, nonce, est) ==
-  LET ok == <<nonce, est>> \notin archived IN
+  LET cp == CpOf(nonce, est)
+      ok == cp \notin archived IN
   /\ IF ok THEN /\ jailed' = jailed \cup {v}
-                /\ punished' = punished \cup {[val |-> v, cp |-> <<nonce, est>>]}
+                /\ punished' = punished \cup {[val |-> v, cp |-> cp, wasIssued |-> cp \in issued]}
                 /\ res' = "ok"
      ELSE UNCHANGED <<jailed, punished>> /\ res' = "fail"
   /\ UNCHANGED <<bal, escrow, supply, community, pool, batches, lastTx, lastBatch, tax, limit, usage, height,
@@ -339,7 +343,8 @@ FailureIsNoOp == [][res' = "fail" => UNCHANGED <<bal, escrow, supply, community,
 \* (checked at acceptance time against the limit then in force -- see trace monitor; here: usage never above limit)
 UsageWithinLimit == \A d \in Denoms : (limit[d] # NoLimit /\ usage[d] # NoUsage) => usage[d].total <= Max({limit[d].limit} \cup Limits)
 \* C13a
-HonestSignerSafe == \A p \in punished : p.cp \notin issued
+\* (a checkpoint guessed before the chain issued it is not one the chain asked anybody to sign)
+HonestSignerSafe == \A p \in punished : ~p.wasIssued
 \* C06b: every stored confirmation is over the batch's current checkpoint, one per validator
 ConfirmsCurrent == \A c \in confirms : \E b \in batches : b.nonce = c.nonce /\ b.est = c.est
 ConfirmsUnique == \A c1, c2 \in confirms : (c1.nonce = c2.nonce /\ c1.val = c2.val) => c1 = c2
